@@ -32,6 +32,8 @@ run_directed = directed.run
 
 def cases(tier, rng):
     thorough = tier == "thorough"
+    for c in directed.proxies_and_nested_constructors_cases():
+        yield "directed-proxies-and-nested-constructors", c
     for c in directed.class_keyword_arguments_cases():
         yield "directed-class-keyword-arguments", c
     for c in directed.sync_layer_over_coroutine_cases():
